@@ -71,10 +71,14 @@ SYSTEMS = {
 _sys_cache = {}
 
 
-def get_system(name, space="grid"):
-    key = (name, space)
+def get_system(name, space="grid", bc=None):
+    """bc: axes that are periodic (grid spaces only), e.g. "x" - same dimensions, another neighbour structure"""
+    key = (name, space, bc)
     if key not in _sys_cache:
-        s = rdsystem_from_dict(json.loads(json.dumps(SYSTEMS[name])))
+        d = json.loads(json.dumps(SYSTEMS[name]))
+        if bc and space == "grid":
+            d["space"]["boundary_conditions"] = {a: "periodical" for a in bc}
+        s = rdsystem_from_dict(d)
         if space in ("graph", "graphloop"):
             from strengths import RDSystem, RDGraphSpace
             from strengths.rdgraphspace import RDGraphSpaceEdge
@@ -93,7 +97,7 @@ def make_script(c):
     """c: dict(system, space, dt, ts, tmax, policy, interval, seed, units, tunit)"""
     us = c.get("units") or {}
     usys = UnitsSystem(**us)
-    system = get_system(c["system"], c.get("space", "grid"))
+    system = get_system(c["system"], c.get("space", "grid"), c.get("bc"))
     if "state" in c:
         system = system.copy()
         system.state = UnitArray([float(x) for x in c["state"]], "molecule")
@@ -109,6 +113,18 @@ def make_script(c):
         kw["t_max"] = c["tmax"]
     if "isp" in c:
         kw["init_state_processing"] = c["isp"]
+    if "ts_first" in c:
+        # the script is built with other requested times and edited afterwards: what is run is the script as it is now
+        script = RDScript(**dict(kw, t_sample=[float(x) for x in c["ts_first"]]))
+        script.t_sample = kw["t_sample"]
+        return script
+    if c.get("edit_after"):
+        # every field assigned after construction (through the setters) instead of passed to the constructor
+        script = RDScript(system=kw["system"], t_sample=[0.0], units_system=kw["units_system"])
+        for k in ("t_sample", "time_step", "sampling_policy", "sampling_interval", "rng_seed", "t_max", "init_state_processing"):
+            if k in kw:
+                setattr(script, k, kw[k])
+        return script
     return RDScript(**kw)
 
 
@@ -347,7 +363,15 @@ class Runner:
         glob = None         # (cid, kind) of the globally last setup
         view = h.get("view", "own")   # which reference maps raw times: the object's own set-up or the globally last one
 
+        nemit = [0]
+        max_events = 40 * len(h["calls"]) + 4000      # a driver that never stops calling the engine must not flood the recorder
+
         def emit(d):
+            nemit[0] += 1
+            if nemit[0] > max_events:
+                f.write(json.dumps({"call": "RUNAWAY", "obj": d.get("obj"), "after": d.get("call")}) + "\n")
+                f.flush()
+                os._exit(0)
             f.write(json.dumps(d) + "\n")
             f.flush()
 
@@ -384,6 +408,10 @@ class Runner:
                     cfg = abstract_cfg(rf, eng._script.sampling_policy)
                     if m != rf.m:
                         cfg["kind"] = "marshal-mismatch"
+                    # what the script says, computed from the configuration and not from the script object: the default
+                    # t_max is the last requested time of the script as it is run
+                    if c.get("tmax", "default") == "default" and m["ts"] and m["tmax"] != m["ts"][-1]:
+                        cfg["kind"] = "default-t_max-is-not-the-last-requested-time"
                     if us_before != us_after:
                         cfg["kind"] = "caller-script-modified-by-setup"
                     if given_script is not None and given_script is not script:
